@@ -54,7 +54,9 @@ type event struct {
 	ID   int     // task / worker / closer / call number
 	Sem  int     // start: semaphore index or -1
 	Ret  string  // ret: nil unavailable throttled canceled
-	Upto int     `json:",omitempty"` // idle: number of events logged before NumTasks() returned 0
+	Upto int     `json:",omitempty"` // idle, busy: number of events logged before NumTasks() was called
+	N    int     `json:",omitempty"` // busy: what NumTasks() returned (> 0)
+	Sync bool    `json:",omitempty"` // start: RunTask (returns after runPostlude)
 	Smp  *sample `json:",omitempty"`
 }
 
@@ -139,8 +141,10 @@ func (l *evlog) idle() {
 	l.mu.Lock()
 	upto := len(l.evs)
 	l.mu.Unlock()
-	if l.s.NumTasks() != 0 {
-		return
+	n := l.s.NumTasks()
+	kind := "idle"
+	if n != 0 {
+		kind = "busy"
 	}
 	l.mu.Lock()
 	sm := &sample{}
@@ -150,7 +154,14 @@ func (l *evlog) idle() {
 	for _, c := range l.sems {
 		sm.Lens = append(sm.Lens, len(c))
 	}
-	l.evs = append(l.evs, event{K: "idle", Sem: -1, Upto: upto, Smp: sm})
+	l.evs = append(l.evs, event{K: kind, Sem: -1, Upto: upto, N: n, Smp: sm})
+	l.mu.Unlock()
+}
+
+// start logs that Run*Task number id is about to be called.
+func (l *evlog) start(id, sem int, sync bool) {
+	l.mu.Lock()
+	l.evs = append(l.evs, event{K: "start", ID: id, Sem: sem, Sync: sync})
 	l.mu.Unlock()
 }
 
@@ -200,7 +211,11 @@ type hop struct {
 func (o hop) coq() string {
 	switch o.K {
 	case "task":
-		return "HTask " + vh.Bool(o.B)
+		c := "None"
+		if o.Ctx >= 0 {
+			c = fmt.Sprintf("(Some %d)", o.Ctx)
+		}
+		return "HTask " + vh.Bool(o.B) + " " + c
 	case "limited":
 		c := "None"
 		if o.Ctx >= 0 {
@@ -302,9 +317,9 @@ func (e event) coq() string {
 	switch e.K {
 	case "start":
 		if e.Sem >= 0 {
-			return fmt.Sprintf("EStart %d (Some %d)", e.ID, e.Sem)
+			return fmt.Sprintf("EStart %d %s (Some %d)", e.ID, vh.Bool(e.Sync), e.Sem)
 		}
-		return fmt.Sprintf("EStart %d None", e.ID)
+		return fmt.Sprintf("EStart %d %s None", e.ID, vh.Bool(e.Sync))
 	case "ret":
 		r, ok := retName[e.Ret]
 		if !ok {
@@ -337,6 +352,10 @@ func (e event) coq() string {
 		return "EObs " + smpCoq(e.Smp)
 	case "idle":
 		return fmt.Sprintf("EIdle %d %s", e.Upto, smpCoq(e.Smp))
+	case "busy":
+		return fmt.Sprintf("EBusy %d %s %s", e.Upto, zz(e.N), smpCoq(e.Smp))
+	case "final":
+		return "EFinal " + smpCoq(e.Smp)
 	}
 	panic("bad event " + e.K)
 }
@@ -737,14 +756,19 @@ func (c *ctl) do(o hop) {
 		t := &taskRec{release: make(chan struct{})}
 		c.tasks = append(c.tasks, t)
 		async := o.B
+		tctx := bg
+		if o.Ctx >= 0 {
+			// possibly cancelled already: RunTask / RunAsyncTask must not care
+			tctx = c.ctxs[o.Ctx].ctx
+		}
 		go func() {
 			defer c.l.guard("RunTask")
-			c.l.add("start", i, -1, "", false)
+			c.l.start(i, -1, !async)
 			var err error
 			if async {
-				err = c.s.RunAsyncTask(bg, fmt.Sprintf("t%d", i), c.body(i, t))
+				err = c.s.RunAsyncTask(tctx, fmt.Sprintf("t%d", i), c.body(i, t))
 			} else {
-				err = c.s.RunTask(bg, fmt.Sprintf("t%d", i), c.body(i, t))
+				err = c.s.RunTask(tctx, fmt.Sprintf("t%d", i), c.body(i, t))
 			}
 			t.ret.Store(errName(err))
 			c.l.add("ret", i, -1, errName(err), true)
@@ -760,7 +784,7 @@ func (c *ctl) do(o hop) {
 		sem, wait := o.N, o.B
 		go func() {
 			defer c.l.guard("RunLimitedAsyncTask")
-			c.l.add("start", i, sem, "", false)
+			c.l.start(i, sem, false)
 			err := c.s.RunLimitedAsyncTask(ctx, fmt.Sprintf("l%d", i), c.sems[sem], wait, c.body(i, t))
 			t.ret.Store(errName(err))
 			c.l.add("ret", i, -1, errName(err), true)
@@ -841,6 +865,25 @@ type ctlCase struct {
 	TimedOut bool
 }
 
+// pickTaskCtx: the context handed to RunTask / RunAsyncTask: background, or
+// (4 times in 10) one of the WithCancelOn* contexts, preferably one that is
+// cancelled already.
+func pickTaskCtx(rng *rand.Rand, tw *twin) int {
+	if len(tw.ctxs) == 0 || rng.Intn(10) >= 4 {
+		return -1
+	}
+	var dead []int
+	for i, c := range tw.ctxs {
+		if c.cancelled {
+			dead = append(dead, i)
+		}
+	}
+	if len(dead) > 0 && rng.Intn(3) != 0 {
+		return dead[rng.Intn(len(dead))]
+	}
+	return rng.Intn(len(tw.ctxs))
+}
+
 // genOps draws one operation sequence of total length <= maxLen (closing
 // tail included): the twin says which operations are applicable.
 func genOps(rng *rand.Rand, caps []int, maxLen int) ([]hop, bool) {
@@ -864,9 +907,11 @@ func genOps(rng *rand.Rand, caps []int, maxLen int) ([]hop, bool) {
 		var o hop
 		switch r := rng.Intn(100); {
 		case r < 8:
-			o = hop{K: "task", B: false}
+			o = hop{K: "task", B: false, Ctx: -1}
+			o.Ctx = pickTaskCtx(rng, tw)
 		case r < 18:
-			o = hop{K: "task", B: true}
+			o = hop{K: "task", B: true, Ctx: -1}
+			o.Ctx = pickTaskCtx(rng, tw)
 		case r < 36:
 			o = hop{K: "limited", N: rng.Intn(len(caps)), B: rng.Intn(2) == 0, Ctx: -1}
 			if len(tw.ctxs) > 0 && rng.Intn(3) == 0 {
@@ -923,6 +968,12 @@ func genOps(rng *rand.Rand, caps []int, maxLen int) ([]hop, bool) {
 		}
 		tw.apply(o)
 		ops = append(ops, o)
+		if o.K == "withcancel" && rng.Intn(5) < 2 && len(ops)+1+tailNeed() <= maxLen {
+			// a context that is already cancelled when it is handed to a later submission
+			o2 := hop{K: "cancelfn", N: len(tw.ctxs) - 1}
+			tw.apply(o2)
+			ops = append(ops, o2)
+		}
 	}
 	// closing tail, in a random order: Stop if not called yet, every running
 	// task and live worker released (so that no goroutine stays behind)
@@ -993,6 +1044,11 @@ func runCtl(caps []int, ops []hop) ctlCase {
 				res.TimedOut = true
 			}
 			mu.Unlock()
+		}
+		if tw.stopCalled && len(tw.runningTasks()) == 0 && len(tw.liveWorkers()) == 0 && !tw.anyWaiter() {
+			// every body has been told to return, Stop has been called and
+			// the harness has waited for the Stopper to settle
+			c.l.add("final", 0, -1, "", true)
 		}
 	}()
 	select {
@@ -1139,6 +1195,14 @@ func runFree(seed int64) freeCase {
 		defer once.Do(prologue.Done)
 		var cancels []func()
 		var ctxs []context.Context
+		// the context handed to RunTask / RunAsyncTask: background, or one of
+		// this actor's WithCancelOn* contexts, cancelled or not
+		pickCtx := func() context.Context {
+			if len(ctxs) > 0 && r.Intn(3) == 0 {
+				return ctxs[r.Intn(len(ctxs))]
+			}
+			return bg
+		}
 		for k := r.Intn(3); k > 0; k-- {
 			spawnWorker(r, 0)
 		}
@@ -1148,13 +1212,13 @@ func runFree(seed int64) freeCase {
 			switch x := r.Intn(100); {
 			case x < 15:
 				i := int(atomic.AddInt32(&taskID, 1)) - 1
-				l.add("start", i, -1, "", false)
-				err := s.RunTask(bg, "t", mkBody(i, r))
+				l.start(i, -1, true)
+				err := s.RunTask(pickCtx(), "t", mkBody(i, r))
 				l.add("ret", i, -1, errName(err), true)
 			case x < 35:
 				i := int(atomic.AddInt32(&taskID, 1)) - 1
-				l.add("start", i, -1, "", false)
-				err := s.RunAsyncTask(bg, "a", mkBody(i, r))
+				l.start(i, -1, false)
+				err := s.RunAsyncTask(pickCtx(), "a", mkBody(i, r))
 				l.add("ret", i, -1, errName(err), true)
 			case x < 68:
 				i := int(atomic.AddInt32(&taskID, 1)) - 1
@@ -1163,7 +1227,7 @@ func runFree(seed int64) freeCase {
 				if len(ctxs) > 0 && r.Intn(3) == 0 {
 					ctx = ctxs[r.Intn(len(ctxs))]
 				}
-				l.add("start", i, sem, "", false)
+				l.start(i, sem, false)
 				err := s.RunLimitedAsyncTask(ctx, "l", sems[sem], r.Intn(2) == 0, mkBody(i, r))
 				l.add("ret", i, -1, errName(err), true)
 			case x < 84:
@@ -1181,6 +1245,9 @@ func runFree(seed int64) freeCase {
 				}
 				ctxs = append(ctxs, ctx)
 				cancels = append(cancels, cancel)
+				if r.Intn(3) == 0 {
+					cancel() // already cancelled when handed to a later submission
+				}
 			case x < 96:
 				if len(cancels) > 0 {
 					cancels[r.Intn(len(cancels))]()
@@ -1221,7 +1288,7 @@ func runFree(seed int64) freeCase {
 				<-goCh
 				for k := 0; k < 150; k++ {
 					i := int(atomic.AddInt32(&taskID, 1)) - 1
-					l.add("start", i, -1, "", false)
+					l.start(i, -1, true)
 					err := s.RunTask(bg, "h", func(context.Context) {
 						l.add("begin", i, -1, "", true)
 						if closed(s.ShouldQuiesce()) {
